@@ -151,9 +151,10 @@ def null_vs_wire(sx, m):
     """NullServer delivers the same arguments and returns (or raises) the same result as the wire; keyword and
     positional invocation are equivalent; Ignored is delivered directly but sent as empty"""
     CAP.clear()
-    a = sx.int('a', -3, 3)
-    b = sx.int('b', -3, 3)
-    n = sx.choose('slen', [0, 1, 2])
+    R = 3 if sx.tier == 'quick' else 12
+    a = sx.int('a', -R, R)
+    b = sx.int('b', -R, R)
+    n = sx.choose('slen', [0, 1, 2] if sx.tier == 'quick' else [0, 1, 2, 3])
     s = sx.text('s', n, alphabet='ab') if n else u''
     flag = sx.bool('flag')
     style = sx.choose('style', ['positional', 'keyword'])
